@@ -321,7 +321,8 @@ pub fn eval(op: &str, a: &[&str]) -> Option<String> {
             let (x, y) = (unhx(a[0]), unhx(a[1]));
             Some(hx(Path::new(OsStr::from_bytes(&x)).join(OsStr::from_bytes(&y)).as_os_str().as_bytes()))
         }
-        "level" if a.len() == 2 => level(a[0], a[1].parse().ok()?),
+        // `levelnb`: the same request against rpm-rs built WITHOUT bzip2 support (only emitted by the nobz variant)
+        "level" | "levelnb" if a.len() == 2 => level(a[0], a[1].parse().ok()?),
         "tsset" if a.len() == 4 => tsset(a[0], a[1], a[2].parse().ok()?, a[3].parse().ok()?),
         "capsset" if a.len() == 1 => Some(capsset(text(a[0])?)),
         "meta" if a.len() == 1 => Some(meta(text(a[0])?)),
@@ -358,7 +359,23 @@ fn dest_ops(ctx: &mut Ctx, s: &str) {
     path_ops(ctx, s.as_bytes());
 }
 
+/// rpm-rs without bzip2 support: every type x level is ok / err, never a panic; bzip2 is always refused
+fn gen_nobz(ctx: &mut Ctx) {
+    let mut k = 0u64;
+    for ty in ["none", "gzip", "zstd", "xz", "bzip2"] {
+        for l in [-1i64, 0, 1, 5, 9, 10, 19, 22, 23, 100, 2147483647, 4294967295] {
+            k += 1;
+            if k % ctx.shard.1 == ctx.shard.0 {
+                ctx.req(&format!("levelnb {} {}", ty, l));
+            }
+        }
+    }
+}
+
 pub fn gen(ctx: &mut Ctx) {
+    if ctx.variant == "nobz" {
+        return gen_nobz(ctx);
+    }
     let (si, sn) = ctx.shard;
     let mut idx: u64 = 0;
     let mine = |idx: &mut u64| {
